@@ -106,3 +106,10 @@ Theorem C05_repeated_selfdestruct_in_reverted_frame_undone_example :
   b_supply (model_obs w_sd_again_in_reverted_frame) = -1000 /\ nth 1 (b_bal (model_obs w_sd_again_in_reverted_frame)) 0 = 5000.
 Proof. exact sd_again_in_reverted_frame_undone. Qed.
 Print Assumptions C05_repeated_selfdestruct_in_reverted_frame_undone_example.
+
+Theorem C05_selfdestruct_after_reverted_selfdestruct_pays_out_example :
+  model_obs w_sd_third_after_reverted = impl_obs w_sd_third_after_reverted /\
+  b_ok (model_obs w_sd_third_after_reverted) = true /\
+  b_supply (model_obs w_sd_third_after_reverted) = 0 /\ nth 0 (b_bal (model_obs w_sd_third_after_reverted)) 0 = 6000.
+Proof. exact sd_third_after_reverted_pays_out. Qed.
+Print Assumptions C05_selfdestruct_after_reverted_selfdestruct_pays_out_example.
